@@ -28,20 +28,33 @@ class _State:
     entropy = 0
 
 
-def derive(seed):
+def derive(seed, key=()):
     if seed is None:
         e = _State.entropy
         _State.entropy += 1
         return 1000003 + e
-    return (int(seed) * 7919 + 104729) % INT32_MAX
+    h = 0
+    for k in key:
+        h = h * 31 + int(k) + 1
+    return (int(seed) * 7919 + 104729 + h) % INT32_MAX
+
+
+class FakeSeedSequence:
+    """np.random.SeedSequence(entropy, spawn_key=...) as a plain record"""
+
+    def __init__(self, entropy=None, spawn_key=()):
+        self.entropy, self.spawn_key = entropy, tuple(spawn_key)
 
 
 class FakeGenerator:
     def __init__(self, seed=None):
-        self.seed = seed
+        if isinstance(seed, FakeSeedSequence):
+            self.seed, self.key = seed.entropy, seed.spawn_key
+        else:
+            self.seed, self.key = seed, ()
 
     def integers(self, *a, **k):
-        return derive(self.seed)
+        return derive(self.seed, self.key)
 
 
 class FakeRandomState:
@@ -57,6 +70,7 @@ class FakeRandomState:
 class FakeRandom:
     default_rng = staticmethod(lambda seed=None: FakeGenerator(seed))
     RandomState = staticmethod(lambda seed=None: FakeRandomState(seed))
+    SeedSequence = FakeSeedSequence
 
 
 class NumpyProxy:
@@ -166,7 +180,7 @@ def model_line(c, chunks):
         cd = ch.pop(0) if isinstance(c["dose"], list) else [1]
         cs = ch.pop(0) if c["samples"] > 1 else [1]
         ci, mode = ch.pop(0), "lazy"
-    return f"noise {mode} {sd} {ds} {list_s(cd)} {list_s(cs)} {list_s(ci)} {listlist_s(items, rat_s)}"
+    return f"noise {mode} {sd} {ds} {list_s(cd)} {list_s(cs)} {list_s(ci)} 2 {listlist_s(items, rat_s)}"
 
 
 class C31(Property):
@@ -215,7 +229,7 @@ class C31(Property):
                     ctx.count("skipped:unseeded-multiblock")
                     continue
                 cases.append(c); impls.append(got); lines.append(model_line(c, chunks if c["lazy"] else None))
-        bad = ["noise eager s:1 s:1 1 1 1", "noise maybe s:1 s:1 1 1 1 1", "noise eager x:1 s:1 1 1 1 1", "noise"]
+        bad = ["noise eager s:1 s:1 1 1 1 2", "noise maybe s:1 s:1 1 1 1 2 1", "noise eager x:1 s:1 1 1 1 2 1", "noise"]
         outs = drv.query(lines + bad)
         for l, o in zip(bad, outs[len(lines):]):
             ctx.agree("driver rejects malformed request", l, o, "bad-op")
